@@ -576,6 +576,9 @@ func (p *Program) touchInstr(in ssa.Instruction, t map[string]bool, gl map[*ssa.
 		if isNamed(v.Type().(*types.Pointer).Elem(), "math/big", "Int") {
 			add("BigVal", "next")
 		}
+		if _, isArr := byteArrayLen(v.Type().(*types.Pointer).Elem()); isArr {
+			add("BMem", "next")
+		}
 	case *ssa.MakeSlice:
 		add("BMem", "SMem", "next")
 	case *ssa.MakeMap:
@@ -585,6 +588,11 @@ func (p *Program) touchInstr(in ssa.Instruction, t map[string]bool, gl map[*ssa.
 	case *ssa.Convert:
 		add("BMem", "next")
 	case *ssa.Store:
+		if pt, ok := v.Addr.Type().Underlying().(*types.Pointer); ok {
+			if _, isArr := byteArrayLen(pt.Elem()); isArr {
+				add("BMem")
+			}
+		}
 		switch a := v.Addr.(type) {
 		case *ssa.Global:
 			gl[a] = true
@@ -655,6 +663,19 @@ func (p *Program) touchInstr(in ssa.Instruction, t map[string]bool, gl map[*ssa.
 				return
 			}
 			unknown(&cc)
+		case *ssa.MakeClosure:
+			if f, ok := callee.Fn.(*ssa.Function); ok {
+				ct, cg := p.touchOf(f)
+				for k := range ct {
+					t[k] = true
+				}
+				for k := range cg {
+					gl[k] = true
+				}
+				return
+			}
+			add(heapMaps...)
+			add("next")
 		default:
 			add(heapMaps...)
 			add("next")
